@@ -19,6 +19,10 @@ def run(pid, tier, plan, oracle_name, monitors_name=None, assumptions=(), extra_
         "schedules complete up to the stated deviation bound per program; decision points are "
         "kernel operations and operations on the executor's shared containers",
     ]
+    sd = framework.seed()
+    if plan and sd:
+        k = sd % len(plan)
+        plan = list(plan[k:]) + list(plan[:k])     # seed only permutes the exploration order
     pool = explore.Pool(oracle_name, monitors_name)
     total = explore.Summary()
     per_prog = []
